@@ -51,7 +51,8 @@ REQUIRED_COUNTERS = ['code_data_requests', 'decode_requests',
                      'rotated_picture_requests', 'coprime_requests',
                      'deformed_requests', 'repeated_requests_compared',
                      'extended_gui_requests', 'extended_gui_decodes',
-                     'polygons_compared_with_supports']
+                     'polygons_compared_with_supports',
+                     'decode_requests_with_syndromes_of_thousands_of_entries']
 SHARD_TIMEOUT = {'quick': 900, 'thorough': 5400}
 
 BUDGET = {'quick': 3 * 10 ** 5, 'thorough': 4 * 10 ** 6}
@@ -319,7 +320,8 @@ class SeededNP:
         return getattr(np, name)
 
 
-def check_decode_and_errors(out, client, gui_name, cls_name, size, rng, tier):
+def check_decode_and_errors(out, client, gui_name, cls_name, size, rng, tier,
+                            only=None):
     import panqec.error_models._pauli_error_model as pem
     from panqec.error_models import PauliErrorModel
     codes, decoders, noise_directions = gui_maps()
@@ -375,6 +377,8 @@ def check_decode_and_errors(out, client, gui_name, cls_name, size, rng, tier):
     # ---- /decode ---------------------------------------------------------------
     status, offered = post(client, '/decoder-names', {'code_name': gui_name})
     for dname in offered or []:
+        if only is not None and dname not in only:
+            continue
         if dname == 'MBP' and n > 13:
             continue
         if dname == 'Union-Find' and n > 60:
@@ -429,7 +433,9 @@ def check_decode_and_errors(out, client, gui_name, cls_name, size, rng, tier):
 def plan(tier, seed):
     codes_by_dim = {2: fam.CLASSES_2D, 3: fam.CLASSES_3D}
     tasks = [{'kind': 'names', 'cost': 200},
-             {'kind': 'extended', 'seed': seed, 'cost': 2000}]
+             {'kind': 'extended', 'seed': seed, 'cost': 2000},
+             {'kind': 'bigdecode', 'seed': seed, 'tier': tier,
+              'cost': 6e5}]
     for cls_name in fam.ALL_CLASSES:
         for L in range(1, 13):
             for coprime in (False, True):
@@ -603,7 +609,26 @@ def run_extended(task, out):
             reg.update(old)
 
 
+def run_big_decode(task, out):
+    """/decode for the largest lattices of the menu: the request carries a
+    syndrome of a few thousand entries."""
+    codes, _, _ = gui_maps()
+    client = make_client()
+    rng = np.random.default_rng([task['seed'], 2022])
+    for cls_name, size in (('Toric3DCode', (8, 8, 8)),
+                           ('Color666ToricCode', (10, 10)),
+                           ('Toric2DCode', (12, 12)),
+                           ('XCubeCode', (7, 7, 7))):
+        gui_name = next(k for k, v in codes.items() if v.__name__ == cls_name)
+        check_decode_and_errors(out, client, gui_name, cls_name, size, rng,
+                                task['tier'], only=['BP-OSD'])
+        out.count('decode_requests_with_syndromes_of_thousands_of_entries')
+
+
 def run_task(task, out):
+    if task['kind'] == 'bigdecode':
+        run_big_decode(task, out)
+        return
     if task['kind'] == 'extended':
         run_extended(task, out)
     elif task['kind'] == 'names':
